@@ -16,6 +16,9 @@ import tempfile
 
 from redun import file as rf
 
+import itertools as _it
+
+_UNIQ = _it.count()     # scratch names never collide within a process
 PROPERTY = "C30"
 LEVEL = "exploration"
 RULE = ("seeded op sequences of length 3-10 per object over {redun write, redun append, redun copy_to, stage, unstage, "
@@ -93,7 +96,7 @@ def snapshot_bytes(path_or_pattern_obj):
 
 def file_case(ctx, rnd, fam, w, where):
     F, D, S, SF, SD = FAMILIES[fam]
-    base = os.path.join(w.d, "f%d" % rnd.randrange(10 ** 6))
+    base = os.path.join(w.d, "f%d_%d" % (rnd.randrange(10 ** 6), next(_UNIQ)))
     os.makedirs(base)
     path = os.path.join(base, "a.txt")
     obj = F(path)
@@ -213,7 +216,7 @@ def file_case(ctx, rnd, fam, w, where):
 
 def dir_case(ctx, rnd, fam, w, where, use_fileset):
     F, D, S, SF, SD = FAMILIES[fam]
-    base = os.path.join(w.d, "d%d" % rnd.randrange(10 ** 6))
+    base = os.path.join(w.d, "d%d_%d" % (rnd.randrange(10 ** 6), next(_UNIQ)))
     root = os.path.join(base, "tree")
     os.makedirs(os.path.join(root, "sub"))
     w.ext_write(os.path.join(root, "a.txt"), "a")
